@@ -29,6 +29,19 @@ SimPrefixes == AllPrefixes(SimNames) \cup Misses \cup {NameStr(n) \o <<"/">> : n
 (* sanity of the vocabulary itself *)
 ASSUME \A n \in SimNames \cup BfsNames : Ordinary(n) /\ Inside(n)
 ASSUME ~Inside(<<<<".", ".">>, A>>) /\ ~Inside(<<A, <<".", ".">>, <<".", ".">>, B>>) /\ ~Ordinary(<<A, <<".", ".">>>>)
+(* lexical resolution agrees with Inside on ordinary names, and decides the hostile shapes *)
+DD == <<".", ".">>
+Base == <<<<"r">>, <<"b", "k">>>>
+ASSUME \A n \in SimNames \cup BfsNames : ResolvesInside(Base, n)
+ASSUME /\ ~ResolvesInside(Base, <<DD, A>>)                        \* ../a
+       /\ ~ResolvesInside(Base, <<DD, <<"o">>, A>>)               \* ../other/a : the neighbour bucket
+       /\ ResolvesInside(Base, <<DD, <<"b", "k">>, A>>)           \* ../bk/a : back inside its own directory
+       /\ ~ResolvesInside(Base, <<A, DD, DD, A>>)                 \* a/../../a
+       /\ ~ResolvesInside(Base, <<A, <<>>, DD, DD, A>>)           \* a//../../a : an empty component is not a level
+       /\ ResolvesInside(Base, <<<<>>, A, B>>)                    \* /a/b joined below the bucket
+       /\ ~ResolvesInside(Base, <<A, DD>>) /\ ~ResolvesInside(Base, <<>>) /\ ~ResolvesInside(Base, <<<<".">>>>)
+       /\ ~ResolvesInside(Base, <<DD, DD, DD, DD, A>>)            \* above the root
+       /\ ResolvesInside(Base, <<<<".", ".", "\\", "a">>>>)       \* ..\a is one ordinary component here
 ASSUME IsPrefix(<<"a">>, NameStr(<<AB, A>>)) /\ ~IsPrefix(<<"a", "/">>, NameStr(<<AB, A>>)) /\ IsPrefix(<<>>, NameStr(<<A>>))
 ASSUME Conflict(<<A>>, <<A, B>>) /\ ~Conflict(<<A>>, <<AB>>) /\ ~Conflict(<<A, B>>, <<A, AB>>)
 =============================================================================
